@@ -40,5 +40,18 @@ func Run(cfg hx.Config) (*hx.Meta, error) {
 			}
 		},
 	}
-	return vr.Run(cfg)
+	meta, err := vr.Run(cfg)
+	if err != nil {
+		return nil, err
+	}
+	// hardening round 5 (with C02): Compare/Equal methods with a pointer receiver whose parameter is a named
+	// interface that only the pointer type implements (goderive fixes 3c717aa, 9bb0687): the method is handed
+	// the address of the other value component
+	cat := ga.NewCatalogue()
+	cat.WithMethods = true
+	x := &ga.ExtraRun{VR: vr, Name: "ifmeth", Types: cat.NamedIfacePtrCompareShapesR5(), PoolMax: 12}
+	if err := x.Run(cfg, meta); err != nil {
+		return nil, err
+	}
+	return meta, nil
 }
